@@ -74,7 +74,9 @@ func (r *MixedIndentationRule) Check(ctx *linter.Context) ([]linter.Violation, e
 	// Track the first indentation type we encounter
 	var firstIndentType string // "tab" or "space"
 
-	for lineNum, line := range ctx.Lines {
+	// analysed with literal and comment content masked: a line that continues a multi-line
+	// literal has no indentation
+	for lineNum, line := range linter.MaskedLines(ctx.SQL) {
 		if len(line) == 0 {
 			continue
 		}
@@ -97,7 +99,7 @@ func (r *MixedIndentationRule) Check(ctx *linter.Context) ([]linter.Violation, e
 				Severity:   r.Severity(),
 				Message:    "Line mixes tabs and spaces for indentation",
 				Location:   models.Location{Line: lineNum + 1, Column: 1},
-				Line:       line,
+				Line:       ctx.Lines[lineNum],
 				Suggestion: "Use either tabs or spaces consistently for indentation (spaces recommended)",
 				CanAutoFix: true,
 			})
@@ -122,7 +124,7 @@ func (r *MixedIndentationRule) Check(ctx *linter.Context) ([]linter.Violation, e
 					Severity:   r.Severity(),
 					Message:    "Inconsistent indentation: file uses both tabs and spaces",
 					Location:   models.Location{Line: lineNum + 1, Column: 1},
-					Line:       line,
+					Line:       ctx.Lines[lineNum],
 					Suggestion: "Use " + firstIndentType + "s consistently throughout the file",
 					CanAutoFix: true,
 				})
@@ -143,6 +145,12 @@ func (r *MixedIndentationRule) Check(ctx *linter.Context) ([]linter.Violation, e
 //
 // Returns the fixed content with consistent space-based indentation, and nil error.
 func (r *MixedIndentationRule) Fix(content string, violations []linter.Violation) (string, error) {
+	// Literal, quoted-identifier and comment content is masked so that it is left alone
+	// even where it spans several lines.
+	content, restore, ok := linter.MaskForRewrite(content)
+	if !ok {
+		return content, nil
+	}
 	lines := strings.Split(content, "\n")
 
 	for i, line := range lines {
@@ -154,7 +162,7 @@ func (r *MixedIndentationRule) Fix(content string, violations []linter.Violation
 		}
 	}
 
-	return strings.Join(lines, "\n"), nil
+	return restore(strings.Join(lines, "\n")), nil
 }
 
 // getLeadingWhitespace extracts the leading whitespace characters from a line.
